@@ -1,5 +1,7 @@
 import ProbLogModel.Sem
 import ProbLogProofs.Lemmas.SemWorlds
+import ProbLogProofs.Lemmas.SemGamma
+import ProbLogProofs.Lemmas.SemRules
 /-!
 # C01 — theorems about the *specification* `Sem` itself (the reference the C01/C02/C07/C08 checks execute)
 
@@ -8,7 +10,7 @@ distribution semantics: the total choices form a probability distribution, `gamm
 and for definite programs `wfm` is two-valued and equal to that least model.
 -/
 namespace ProbLogProofs.C01
-open ProbLogModel.Sem ProbLogProofs
+open ProbLogModel.Sem ProbLogProofs ProbLogProofs.SemGamma ProbLogProofs.SemRules
 
 /-- The weights of the total choices of any list of groups sum to 1 (no hypothesis on the probabilities:
     the "none of the alternatives" remainder `1 - Σ p` makes each group's factor telescope to 1). -/
@@ -24,5 +26,65 @@ theorem C01_worlds_count (gs : List Group) :
 example : ((worlds [⟨[(3/10, 0)]⟩, ⟨[(1/5, 1), (1/2, 2)]⟩]).map (·.weight)) =
     [3/50, 3/20, 9/100, 7/50, 7/20, 21/100] := by decide +kernel
 example : (worlds [⟨[(3/10, 0)]⟩, ⟨[(1/5, 1), (1/2, 2)]⟩]).length = 6 := by decide
+
+/-! ## `gamma` is the least model of the reduct
+
+`Closed rules chosen ctx M` (`Lemmas/SemGamma.lean`): `M : Nat → Bool` contains the head of every rule whose choice
+is selected (`chOk`), whose positive body lies in `M` and whose negative body is false in `ctx`. -/
+
+/-- The fuel `natoms + 1` is sufficient: the result of `gamma` is a fixpoint of the pass `tpPass`
+    (every pass that is not the last one adds at least one of the `natoms` atoms). -/
+theorem C01_gamma_fixpoint (rules : List Rule) (chosen : Array Bool) (natoms : Nat) (ctx : Array Bool) :
+    tpPass rules chosen ctx (gamma rules chosen natoms ctx) = gamma rules chosen natoms ctx :=
+  (gamma_spec rules chosen natoms ctx).2.1
+
+/-- `gamma` is closed under the rules (heads must be atoms `< natoms`; nothing is asked of body atoms). -/
+theorem C01_gamma_closed (rules : List Rule) (chosen : Array Bool) (natoms : Nat) (ctx : Array Bool)
+    (hwf : wfHeads natoms rules = true) :
+    Closed rules chosen ctx (getB (gamma rules chosen natoms ctx)) :=
+  (gamma_closedBelow rules chosen natoms ctx).closed hwf
+
+/-- ... and it is below every closed set: it is the least model of the reduct. No hypothesis. -/
+theorem C01_gamma_least (rules : List Rule) (chosen : Array Bool) (natoms : Nat) (ctx : Array Bool)
+    (M : Nat → Bool) (hM : Closed rules chosen ctx M) (i : Nat)
+    (hi : getB (gamma rules chosen natoms ctx) i = true) : M i = true :=
+  gamma_least rules chosen natoms ctx M (hM.below natoms) i hi
+
+/-- Hypothesis-free form: `gamma` is the least set closed under the rules with head `< natoms`
+    (rules with a head `≥ natoms` are ignored by `tpPass`), and it only contains atoms `< natoms`. -/
+theorem C01_gamma_least_below (rules : List Rule) (chosen : Array Bool) (natoms : Nat) (ctx : Array Bool) :
+    ClosedBelow natoms rules chosen ctx (getB (gamma rules chosen natoms ctx)) ∧
+    (∀ M, ClosedBelow natoms rules chosen ctx M → ∀ i, getB (gamma rules chosen natoms ctx) i = true → M i = true) ∧
+    (∀ i, getB (gamma rules chosen natoms ctx) i = true → i < natoms) :=
+  ⟨gamma_closedBelow rules chosen natoms ctx, gamma_least rules chosen natoms ctx, fun _ h => gamma_lt h⟩
+
+-- non-vacuity: `c0::a1. a0 :- a1. a2 :- \+a0.` with c0 selected, read in the context {a0}
+example : wfHeads 3 [⟨0, [1], [], none⟩, ⟨1, [], [], some 0⟩, ⟨2, [], [0], none⟩] = true := by decide
+example : wfProg 3 [⟨0, [1], [], none⟩, ⟨1, [], [], some 0⟩, ⟨2, [], [0], none⟩] = true := by decide
+example : (gamma [⟨0, [1], [], none⟩, ⟨1, [], [], some 0⟩, ⟨2, [], [0], none⟩] #[true] 3
+    #[true, false, false]).toList = [true, true, false] := by decide
+-- a closed set exists (the hypothesis of `C01_gamma_least` is satisfiable): everything
+example : Closed [⟨0, [1], [], none⟩, ⟨1, [], [], some 0⟩, ⟨2, [], [0], none⟩] #[true] #[true, false, false]
+    (fun _ => true) := fun _ _ _ _ _ => rfl
+
+/-! ## relevant atoms = atoms reachable from the roots -/
+
+/-- `relevantAtoms` is exactly reachability from the roots through positive and negative body atoms, inside the atoms
+    `< natoms` (`Reach` in `Lemmas/SemRules.lean`). No hypothesis. -/
+theorem C01_relevant_iff_reach (rules : List Rule) (natoms : Nat) (roots : List Nat) (a : Nat) :
+    getB (relevantAtoms rules natoms roots) a = true ↔ Reach natoms rules roots a :=
+  relevant_iff_reach rules natoms roots a
+
+/-- Why `relevantAtoms` is no longer the worklist algorithm: its fuel `natoms * (|rules| + 1) + |roots| + 1` does
+    not bound the number of pops. Witness `a0 :- a1 (×20), a2.`: atom 2 is reachable from 0 but not marked. -/
+theorem C01_worklist_fuel_insufficient :
+    let rules : List Rule := [⟨0, List.replicate 20 1 ++ [2], [], none⟩, ⟨1, [], [], none⟩, ⟨2, [], [], none⟩]
+    getB (relevantAtomsWorklist rules 3 [0]) 2 = false ∧ getB (relevantAtoms rules 3 [0]) 2 = true ∧
+    wfProg 3 rules = true := by decide +kernel
+
+example : (relevantAtoms [⟨0, [1], [2], none⟩, ⟨3, [0], [], none⟩] 4 [0]).toList = [true, true, true, false] := by
+  decide
+example : Reach 4 [⟨0, [1], [2], none⟩, ⟨3, [0], [], none⟩] [0] 2 :=
+  .step (r := ⟨0, [1], [2], none⟩) (.root (by decide) (by decide)) (by decide) (by decide) (by decide)
 
 end ProbLogProofs.C01
